@@ -1,9 +1,6 @@
 (* C14, concurrent part — racing creates sharing a reference.  Statements only (model Ledger/Conc.v).
-   Proved for all schedules here: the ids part (C16c).  The at-most-one-winner statement
-     forall hash prefix writers sched, NoDup (nonempty references of committed_txs (sched_outcome hash prefix writers sched))
-   is checked by exhaustive schedule exploration against the real stack (TIE-S) and evaluated on the model below; its
-   all-schedules proof (unique-index wait rule: an INSERT publishes its row only when no live row carries the reference)
-   is not done. *)
+   Proved for ALL schedules (induction over the schedule, ConcProofs.tx_ok): the unique-index wait rule -- an INSERT publishes
+   its row only when no live row carries the reference; it waits for an in-flight one -- keeps non-empty references unique. *)
 From Coq Require Import List ZArith String Bool Lia.
 From LV Require Import Ledger.Conc Ledger.ConcProofs.
 Import ListNotations.
@@ -23,12 +20,19 @@ Example C14_conc_example :
             (0, LCommit, SDone); (1, LTx, SDone); (1, LRollback, SDone)]%nat.
 Proof. vm_compute. repeat split; reflexivity. Qed.
 
+(* at most one committed transaction per non-empty reference, for ALL schedules and any number of racers *)
+Theorem C14_conc_unique : forall hash prefix writers sched,
+  NoDup (filter nonempty (map t_ref (committed_txs (sched_outcome hash prefix writers sched)))).
+Proof. intros. apply unique_refs_committed. apply outcome_tx_inv. Qed.
+Print Assumptions C14_conc_unique.
+Theorem C14_conc_unique_from : forall g sched, tx_inv g -> NoDup (filter nonempty (map t_ref (committed_txs (run g sched)))).
+Proof. intros. apply unique_refs_committed. apply tx_inv_all_schedules; auto. Qed.
+Print Assumptions C14_conc_unique_from.
+
 (* ids of the racers are distinct whatever the schedule *)
 Theorem C14_conc_ids_unique : forall hash prefix writers sched,
   NoDup (map t_id (g_txs (sched_outcome hash prefix writers sched))).
 Proof.
-  intros. assert (H : ids_inv (sched_outcome hash prefix writers sched)).
-  { apply ids_unique_all_schedules. apply ids_inv_reseat. apply ids_unique_all_schedules. apply ids_inv_init. }
-  destruct H as [[A _] _]. exact A.
+  intros. apply (tx_ids _ _ _ (outcome_tx_inv hash prefix writers sched)).
 Qed.
 Print Assumptions C14_conc_ids_unique.
